@@ -15,6 +15,11 @@ import LdkModel.Proofs.GossipSpecThms
 import LdkModel.Proofs.GossipRefine
 import LdkModel.Proofs.GossipRgs
 import LdkModel.Proofs.GossipAsync
+import LdkModel.Proofs.GossipAsyncEquiv
+import LdkModel.Proofs.GossipRgsNodes
+import LdkModel.Proofs.GossipPersist
+import LdkModel.Model.GossipOrder
+import LdkModel.Generated.TlvSchemas
 namespace Ldk.C17
 open Ldk Ldk.Gossip
 
@@ -493,5 +498,229 @@ theorem async_second_lookup_takes_over_the_scid :
   ⟨⟨7, 1, 2, false, true, true, true, true, true, true, .unknownTx, 100⟩,
    ⟨7, 1, 3, false, true, true, true, true, true, true, .unknownTx, 100⟩,
    ⟨7, false, false, 10, 40, 1, 1000, 1, 2, true, false, true, 1⟩, rfl, by decide, by decide⟩
+
+
+
+open Async in
+/-- SYNC vs ASYNC, a whole window. One announcement `a` (valid or not) whose lookup is answered asynchronously
+    with `r` at any later point; in between, ANY number of messages `ms` arrive:
+    channel updates of other channels and node announcements of other nodes (applied at once), updates of the
+    pending channel — correctly signed, WRONGLY SIGNED, re-signed, above the capacity the lookup will report — and
+    node announcements of its two endpoints (parked, replayed at the resolution). Then the graph after
+    `check_resolved_futures` equals the graph obtained when the lookup answers `r` synchronously and the same
+    messages follow in the same order (receipt time of the announcement = time of the resolution).
+    `_partial`, hypotheses (what is missing for the unrestricted statement):
+    * `Fresh a g`: the graph knows neither the SCID nor the two nodes when the lookup starts (otherwise updates /
+      node announcements are applied to the existing entries instead of being parked);
+    * `WinOk`: no channel announcement inside the window; an update of the pending channel passes the three
+      graph-independent checks (dont_forward, chain hash, htlc_maximum ≤ 21M BTC) and a signed node announcement
+      of an endpoint verifies — those that do not are refused at once in both runs;
+    * `NoContention`: every parked message finds its slot (update: direction; node announcement: endpoint) EMPTY.
+      With two messages in one slot only the one with the largest timestamp is kept and the statement is FALSE
+      when that one is then refused: `async_drops_valid_update_behind_forged_newer`,
+      `async_drops_valid_update_behind_oversized_newer` (the harness compares both runs for all-valid scripts with
+      contention, phase G);
+    * `NoConflict ms`: no two different window messages with the same slot and timestamp. -/
+theorem async_equals_sync_window_partial (g : Graph) (a : ChanAnn) (fid : Nat) (r : Utxo) (now : Nat) (ms : List Msg)
+    (hr : r ≠ .noLookup) (hf : Fresh a g) (hw : ∀ m ∈ ms, WinOk a m)
+    (hc : NoContention a ⟨fid, a, none, none, none, none, none⟩ ms) (hnc : NoConflict ms) :
+    (Async.run ⟨g, [], []⟩ (.annAsync a fid :: (winOps ms ++ [.resolve fid r, .process now]))).g =
+    (Async.run ⟨g, [], []⟩ (.base (.msg (.chanAnn (reAnswer a r now))) :: winOps ms)).g :=
+  window_equiv g a fid r now ms hr hf hw hc hnc
+
+/-- non-vacuity: a window with a valid update, a wrongly signed update of the other direction, a node
+    announcement of an endpoint and an update of another (known) channel; something is parked, something lands -/
+example :
+    let g := Impl.run Graph.empty [.msg (.chanAnn ⟨3, 4, 5, false, true, true, true, true, true, true, .noLookup, 50⟩)]
+    let a : ChanAnn := ⟨7, 1, 2, false, true, true, true, true, true, true, .unknownTx, 100⟩
+    let ms : List Msg := [.chanUpd ⟨7, false, false, 10, 40, 1, 1000, 1, 2, true, false, true, 1⟩,
+      .chanUpd ⟨3, false, false, 12, 40, 1, 1000, 1, 2, true, false, true, 4⟩,
+      .chanUpd ⟨7, true, false, 11, 40, 1, 1000, 1, 2, true, false, true, 1⟩,
+      .nodeAnn ⟨2, 9, 77, true, true⟩]
+    Async.Fresh a g ∧ (∀ m ∈ ms, Async.WinOk a m) ∧ Async.NoContention a ⟨1, a, none, none, none, none, none⟩ ms ∧ NoConflict ms ∧
+    ((Async.run ⟨g, [], []⟩ (.annAsync a 1 :: (Async.winOps ms ++ [.resolve 1 (.value 1000), .process 100]))).g.channels.get 7).map
+      (fun c => (c.d12.map (·.lastUpdate), c.d21.isSome)) = some (some 10, false) := by
+  refine ⟨⟨by decide, rfl, rfl⟩, ?_, by simp only [Async.NoContention]; decide, by unfold NoConflict; decide, by decide⟩
+  intro m hm
+  simp only [List.mem_cons, List.mem_nil_iff, or_false] at hm
+  rcases hm with rfl | rfl | rfl | rfl <;> simp [Async.WinOk, globalOk, nodeStaticOk] <;> decide
+
+
+
+/-- The node-announcement half of `rgs_never_replaces_newer`: a snapshot applied on top of ANY graph never replaces
+    a stored node announcement (timestamp, payload, relay flag) by older or equally old data — for every node entry
+    that is there before and after, the stored `NodeAnnInfo` is untouched or replaced by one with a strictly larger
+    timestamp (the synthetic announcement of a "modified" node carries the backdated snapshot time). -/
+theorem rgs_never_replaces_newer_node_announcement (g : Graph) (s : Impl.Snapshot) (id : Nat) (ni ni' : NodeInfo)
+    (h : g.nodes.get id = some ni) (h' : (Impl.applySnapshot g s).1.nodes.get id = some ni') :
+    annMono ni.ann ni'.ann :=
+  Impl.snapshot_annMono g s id ni ni' h h'
+
+/-- non-vacuity: the reminder bit (64) of node 1 replaces an older signed node announcement (keeping its payload) and
+    leaves a newer one alone -/
+example :
+    let mk := fun (ts : Nat) => Impl.run Graph.empty [.msg (.chanAnn ⟨3, 1, 2, false, true, true, true, true, true, true, .noLookup, 100⟩),
+      .msg (.nodeAnn ⟨1, ts, 4242, true, true⟩)]
+    let s : Impl.Snapshot := ⟨700000, none, [⟨1, 66⟩], [], 40, 1, 10, 20, 900000, []⟩
+    (((Impl.applySnapshot (mk 10) s).1.nodes.get 1).bind (fun n => n.ann)) = some ⟨95200, 4242, false⟩ ∧
+    (((Impl.applySnapshot (mk 99999) s).1.nodes.get 1).bind (fun n => n.ann)) = some ⟨99999, 4242, true⟩ := by decide
+
+/-! ## persistence (`NetworkGraph::write` / `read`) — Model/GossipPersist.lean -/
+
+/-- THE GRAPH SURVIVES SERIALIZATION: writing any graph and reading it back rebuilds every channel entry
+    (endpoints, capacity, both directions with all their fields and the presence of the signed update, receipt
+    time, presence of the signed announcement) and every node entry (channel set, announcement with timestamp,
+    payload and `Relayed`/`Local`) EXACTLY — and NOTHING of the tombstones `removed_channels` / `removed_nodes`,
+    which `write` does not emit and `read` initialises empty. The read fails (`InvalidValue`) exactly when some
+    channel endpoint has no node entry. -/
+theorem graph_survives_restart (g : Graph) :
+    Persist.restart g = if Persist.Consistent g then some (Persist.stripTombstones g) else none :=
+  Persist.restart_eq g
+
+theorem graph_survives_restart_fields (g g' : Graph) (h : Persist.restart g = some g') :
+    g'.channels = g.channels ∧ g'.nodes = g.nodes ∧ g'.removedChannels = SMap.empty ∧ g'.removedNodes = SMap.empty := by
+  rw [graph_survives_restart] at h
+  split at h
+  · simp only [Option.some.injEq] at h; subst h; exact ⟨rfl, rfl, rfl, rfl⟩
+  · cases h
+
+example : ∃ g g', Persist.restart g = some g' ∧ g'.channels.size = 1 ∧ g.removedChannels.size = 1 :=
+  ⟨Impl.run Graph.empty [.msg (.chanAnn ⟨7, 1, 2, false, true, true, true, true, true, true, .value 1000, 100⟩),
+      .msg (.chanUpd ⟨7, false, false, 10, 40, 1, 1000, 1, 2, true, false, true, 1⟩),
+      .msg (.chanAnn ⟨8, 1, 3, false, true, true, true, true, true, true, .noLookup, 100⟩), .failPermanent 8 100], _,
+    rfl, by decide, by decide⟩
+
+/-- WHAT THAT MEANS FOR "rejects re-announcement": the refusal of a recently removed channel / node does not survive
+    a restart — after `read(write(g))` NO announcement is refused as `recentlyRemoved` any more … -/
+theorem tombstones_forgotten_by_restart (g g' : Graph) (h : Persist.restart g = some g') (a : ChanAnn) :
+    (Impl.applyChanAnn g' a).2 ≠ .reject .recentlyRemoved := by
+  obtain ⟨_, _, h3, h4⟩ := graph_survives_restart_fields g g' h
+  rw [Impl.applyChanAnn_eq]
+  unfold applyChanAnn
+  have hc : ∀ k, g'.removedChannels.contains k = false := by intro k; rw [h3]; rfl
+  have hn : ∀ k, g'.removedNodes.contains k = false := by intro k; rw [h4]; rfl
+  split
+  · rename_i r hr
+    intro e
+    simp only [Outcome.reject.injEq] at e
+    subst e
+    unfold chanAnnPre at hr
+    repeat' split at hr
+    all_goals first | cases hr | skip
+  · simp only [hc, hn, Bool.or_self, Bool.false_eq_true, if_false]
+    split
+    · intro e; cases e
+    · split
+      · intro e; cases e
+      · unfold addChannelBetweenNodes; repeat' split
+        all_goals intro e; cases e
+      · unfold addChannelBetweenNodes; repeat' split
+        all_goals intro e; cases e
+
+/-- … concretely: a channel reported permanently failed is refused before the restart and accepted again right after it. -/
+theorem reannouncement_accepted_after_restart :
+    ∃ (g g' : Graph) (a : ChanAnn), (Impl.applyChanAnn g a).2 = .reject .recentlyRemoved ∧
+      Persist.restart g = some g' ∧ (Impl.applyChanAnn g' a).2 = .accept :=
+  ⟨Impl.run Graph.empty [.msg (.chanAnn ⟨8, 1, 3, false, true, true, true, true, true, true, .noLookup, 100⟩), .failPermanent 8 100], _,
+   ⟨8, 1, 3, false, true, true, true, true, true, true, .noLookup, 100⟩, by decide, rfl, by decide⟩
+
+/-- the TLV type ↦ struct member map of the five persisted gossip structures, as translated from the
+    `write_tlv_fields!` / `read_tlv_fields!` blocks of gossip.rs on every run — the field names of
+    Model/GossipPersist.lean (`t<type>_<member>`) follow this table (features, alias, addresses, the
+    rapid-gossip-sync timestamp and the legacy `lowest_inbound_channel_fees` are opaque to the model) -/
+theorem persisted_fields_exact : Gen.persistedFields = [
+    ("ChannelUpdateInfo.write", 0, "self.last_update", "required"), ("ChannelUpdateInfo.write", 2, "self.enabled", "required"),
+    ("ChannelUpdateInfo.write", 4, "self.cltv_expiry_delta", "required"), ("ChannelUpdateInfo.write", 6, "self.htlc_minimum_msat", "required"),
+    ("ChannelUpdateInfo.write", 8, "Some(self.htlc_maximum_msat)", "required"), ("ChannelUpdateInfo.write", 10, "self.fees", "required"),
+    ("ChannelUpdateInfo.write", 12, "self.last_update_message", "required"),
+    ("ChannelUpdateInfo.read", 0, "last_update", "required"), ("ChannelUpdateInfo.read", 2, "enabled", "required"),
+    ("ChannelUpdateInfo.read", 4, "cltv_expiry_delta", "required"), ("ChannelUpdateInfo.read", 6, "htlc_minimum_msat", "required"),
+    ("ChannelUpdateInfo.read", 8, "htlc_maximum_msat", "required"), ("ChannelUpdateInfo.read", 10, "fees", "required"),
+    ("ChannelUpdateInfo.read", 12, "last_update_message", "required"),
+    ("ChannelInfo.write", 0, "self.features", "required"), ("ChannelInfo.write", 1, "self.announcement_received_time", "(default_value, 0)"),
+    ("ChannelInfo.write", 2, "self.node_one", "required"), ("ChannelInfo.write", 4, "self.one_to_two", "required"),
+    ("ChannelInfo.write", 6, "self.node_two", "required"), ("ChannelInfo.write", 8, "self.two_to_one", "required"),
+    ("ChannelInfo.write", 10, "self.capacity_sats", "required"), ("ChannelInfo.write", 12, "self.announcement_message", "required"),
+    ("ChannelInfo.read", 0, "features", "required"), ("ChannelInfo.read", 1, "announcement_received_time", "(default_value, 0)"),
+    ("ChannelInfo.read", 2, "node_one", "required"), ("ChannelInfo.read", 4, "one_to_two_wrap", "upgradable_option"),
+    ("ChannelInfo.read", 6, "node_two", "required"), ("ChannelInfo.read", 8, "two_to_one_wrap", "upgradable_option"),
+    ("ChannelInfo.read", 10, "capacity_sats", "required"), ("ChannelInfo.read", 12, "announcement_message", "required"),
+    ("NodeAnnouncementInfo.write", 0, "features", "required"), ("NodeAnnouncementInfo.write", 2, "last_update", "required"),
+    ("NodeAnnouncementInfo.write", 4, "rgb", "required"), ("NodeAnnouncementInfo.write", 6, "alias", "required"),
+    ("NodeAnnouncementInfo.write", 8, "announcement_message", "option"), ("NodeAnnouncementInfo.write", 10, "*addresses", "required_vec"),
+    ("NodeAnnouncementInfo.read", 0, "features", "required"), ("NodeAnnouncementInfo.read", 2, "last_update", "required"),
+    ("NodeAnnouncementInfo.read", 4, "rgb", "required"), ("NodeAnnouncementInfo.read", 6, "alias", "required"),
+    ("NodeAnnouncementInfo.read", 8, "announcement_message", "option"), ("NodeAnnouncementInfo.read", 10, "addresses", "required_vec"),
+    ("NodeInfo.write", 2, "self.announcement_info", "option"), ("NodeInfo.write", 4, "self.channels", "required_vec"),
+    ("NodeInfo.read", 0, "_lowest_inbound_channel_fees", "option"), ("NodeInfo.read", 2, "announcement_info_wrap", "upgradable_option"),
+    ("NodeInfo.read", 4, "channels", "required_vec"),
+    ("NetworkGraph.write", 1, "last_rapid_gossip_sync_timestamp", "option"), ("NetworkGraph.read", 1, "last_rapid_gossip_sync_timestamp", "option")] := by
+  decide
+
+/-- the TLV types a block of C12's table (Generated/TlvSchemas.lean, regenerated by tools/gen_tlv_schemas.py) declares -/
+def c12Types (n : String) : List Nat :=
+  ((Ldk.TlvFrame.Gen.generatedTlvSchemas.find? (fun s => s.name == n)).map (fun s => s.types)).getD []
+
+/-- the types of this vertical's table for one block -/
+def c17Types (b : String) : List Nat := (Gen.persistedFields.filter (fun e => e.1 == b)).map (fun e => e.2.1)
+
+/-- TIE TO C12: block by block, the TLV type numbers of this model are those of C12's frame schemas (about which
+    C12 proves the byte-level framing theorems: round trip, ordering, unknown even/odd types, missing required) -/
+theorem persisted_types_match_c12 :
+    c17Types "ChannelUpdateInfo.write" = c12Types "ChannelUpdateInfo.write.w0" ∧ c17Types "ChannelUpdateInfo.read" = c12Types "ChannelUpdateInfo.read.r0" ∧
+    c17Types "ChannelInfo.write" = c12Types "ChannelInfo.write.w0" ∧ c17Types "ChannelInfo.read" = c12Types "ChannelInfo.read.r0" ∧
+    c17Types "NodeAnnouncementInfo.write" = c12Types "NodeAnnouncementInfo.write.w0" ∧ c17Types "NodeAnnouncementInfo.read" = c12Types "NodeAnnouncementInfo.read.r0" ∧
+    c17Types "NodeInfo.write" = c12Types "NodeInfo.write.w0" ∧ c17Types "NodeInfo.read" = c12Types "NodeInfo.read.r0" ∧
+    c17Types "NetworkGraph.write" = c12Types "NetworkGraph.write.w0" ∧ c17Types "NetworkGraph.read" = c12Types "NetworkGraph.read.r0" ∧
+    c17Types "ChannelInfo.write" = [0, 1, 2, 4, 6, 8, 10, 12] := by
+  decide +kernel
+
+
+
+/-! ## arrival order of `NodeInfo.channels` (Model/GossipOrder.lean — what the driver prints in the synchronous phases) -/
+
+/-- The ordered list the driver carries for a node always lists exactly the node's channel SET of the graph model
+    (whatever the previous list and the replaced SCID): the order is extra information on top of the model, never a
+    different set of channels. -/
+theorem order_lists_the_channel_set (old : List Nat) (newSet : SMap Unit) (moved : Option Nat) (s : Nat) :
+    s ∈ Order.orderNode old newSet moved ↔ newSet.contains s = true := by
+  unfold Order.orderNode
+  simp only [List.mem_append, List.mem_filter, Bool.and_eq_true, Bool.not_eq_true']
+  constructor
+  · rintro (⟨_, h, _⟩ | ⟨h, _⟩)
+    · exact h
+    · exact (SMap.mem_keys_iff newSet s).mp h
+  · intro h
+    have hk : s ∈ newSet.keys := (SMap.mem_keys_iff newSet s).mpr h
+    by_cases hc : (List.filter (fun s => newSet.contains s && !(some s == moved)) old).contains s = true
+    · left
+      have := List.contains_iff_mem.mp hc
+      simpa [List.mem_filter] using this
+    · right
+      exact ⟨hk, by simpa using hc⟩
+
+/-- a replaced SCID moves to the end of the list of a node that stays an endpoint (`retain`, then `push`) -/
+example : Order.orderNode [5, 7, 9] ((SMap.empty.insert 5 ()).insert 7 () |>.insert 9 ()) (some 7) = [5, 9, 7] := by decide
+
+
+
+/-- COUNTER-EXAMPLE (replayed on the real code, phase E4): with the final pruning (a clock is supplied) a snapshot
+    applied TWICE is NOT idempotent. The graph holds channel 3, announced long ago, both directions stale. The
+    snapshot lists the channel and refreshes ONE direction incrementally: the first application prunes the channel
+    (the other direction is stale, the announcement old) and tombstones it; the second application re-creates it from
+    the snapshot's announcement — `add_channel_from_partial_announcement` has no tombstone test — with the backdated
+    receipt time, which is recent enough to survive the pruning: a channel entry without any direction that the
+    first application did not leave behind. (Without the final pruning every generated snapshot is idempotent on the
+    real code — implementation oracle of phase E1; no theorem.) -/
+theorem rgs_snapshot_with_pruning_not_idempotent :
+    ∃ (g : Graph) (s : Impl.Snapshot),
+      ((Impl.applySnapshot g s).1.channels.get 3).isNone = true ∧
+      (Impl.applySnapshot g s).1.removedChannels.contains 3 = true ∧
+      ((Impl.applySnapshot (Impl.applySnapshot g s).1 s).1.channels.get 3).map (fun c => (c.d12.isSome, c.d21.isSome)) = some (false, false) :=
+  ⟨Impl.run Graph.empty [.chanPartial 3 none 100 1 2,
+      .msg (.chanUpd ⟨3, false, false, 10, 40, 1, 4000, 1, 2, true, false, false, 0⟩),
+      .msg (.chanUpd ⟨3, true, false, 10, 40, 1, 4000, 1, 2, true, false, false, 0⟩)],
+   ⟨2900000, some 3000000, [], [⟨3, none, 1, 2⟩], 40, 1, 10, 20, 900000, [⟨3, 128, 0, 0, 0, 0, 0⟩]⟩,
+   by decide, by decide, by decide⟩
 
 end Ldk.C17
